@@ -132,7 +132,7 @@ type serverFixture struct {
 	desc   *description.Session
 	h      *handler
 	addr   string
-	ports  map[int]bool // local ports of the sockets the server opened
+	ports  map[string]bool // local ports of the sockets the server opened ("tcp:<port>", "udp:<port>")
 }
 
 func freeUDPPair() (int, error) {
@@ -196,7 +196,7 @@ type srvOpts struct {
 }
 
 func startServer(rec *Rec, o srvOpts) (*serverFixture, error) {
-	fx := &serverFixture{h: &handler{rec: rec}, ports: map[int]bool{}}
+	fx := &serverFixture{h: &handler{rec: rec}, ports: map[string]bool{}}
 	var err error
 	for try := 0; try < 30; try++ {
 		p, perr := freeUDPPair()
@@ -221,8 +221,8 @@ func startServer(rec *Rec, o srvOpts) (*serverFixture, error) {
 		}
 		err = fx.srv.Start()
 		if err == nil {
-			fx.ports[p] = true
-			fx.ports[p+1] = true
+			fx.ports[fmt.Sprintf("udp:%d", p)] = true
+			fx.ports[fmt.Sprintf("udp:%d", p+1)] = true
 			break
 		}
 		if !strings.Contains(err.Error(), "address already in use") {
@@ -234,7 +234,7 @@ func startServer(rec *Rec, o srvOpts) (*serverFixture, error) {
 	}
 	ta := fx.srv.NetListener().Addr().(*net.TCPAddr)
 	fx.addr = ta.String()
-	fx.ports[ta.Port] = true
+	fx.ports[fmt.Sprintf("tcp:%d", ta.Port)] = true
 	if o.withStream {
 		fx.desc = newDesc()
 		fx.stream = &gortsplib.ServerStream{Server: fx.srv, Desc: fx.desc}
